@@ -31,7 +31,8 @@ impl Contents {
             if c["accept"] != true { continue; }
             let label = c["l"].as_str().unwrap_or("");
             if !(label.is_empty() || label.contains("max") || label.contains("min") || label.contains("absent") || label.contains("alt") || label.contains("1line") || label.contains("mid=")) { continue; }
-            if label.contains('+') || label.contains("min-1") { continue; }
+            if label.contains('+') || label.contains("min-1") || label.contains("lit-") || label.contains("nl-")
+                || label.contains("first=") || label.contains("last=") || label.contains("blank") || label.contains("code-") { continue; }
             let tag = c["tag"].as_str().unwrap_or("").to_string();
             let content: String = c["s"].as_array().map(|a| a.iter().filter_map(|x| x.as_str()).collect::<Vec<_>>().concat()).unwrap_or_default();
             if content.contains('<') { continue; }
@@ -146,6 +147,11 @@ pub fn concrete_tag(t: &str) -> &str {
 
 /// Concretise abstract tokens into (tag, content) pairs; None if the table lacks an entry.
 pub fn concretise(c: &Contents, toks: &[AbsTok], policy: usize) -> Option<Vec<(String, String)>> {
+    concretise_salted(c, toks, policy, 0)
+}
+
+/// `salt` varies which boundary-shaped content of the pool a case uses (policies >= 2)
+pub fn concretise_salted(c: &Contents, toks: &[AbsTok], policy: usize, salt: usize) -> Option<Vec<(String, String)>> {
     let mut out = Vec::new();
     let mut seen: BTreeMap<String, usize> = BTreeMap::new();
     for t in toks {
@@ -159,7 +165,7 @@ pub fn concretise(c: &Contents, toks: &[AbsTok], policy: usize) -> Option<Vec<(S
         // policy 0: typical content everywhere; policy p>0: rotate through the alternatives,
         // and give repeated occurrences of a tag different contents so that loss, duplication
         // and reordering of equal tags are observable
-        let idx = if policy == 0 { *n % list.len() } else { (policy + *n) % list.len() };
+        let idx = if policy == 0 { *n % list.len() } else if from_pool { (salt.wrapping_mul(7) + policy + *n) % list.len() } else { (policy + *n) % list.len() };
         *n += 1;
         out.push((tag, list[idx].clone()));
     }
@@ -427,7 +433,7 @@ pub fn run(args: &[String]) -> i32 {
             nontrivial += 1;
         }
         for policy in 0..policies {
-            let fields = match concretise(&contents, &c.toks, policy) {
+            let fields = match concretise_salted(&contents, &c.toks, policy, case_id) {
                 Some(f) => f,
                 None => { skipped_unconcretisable += 1; continue; }
             };
@@ -523,7 +529,7 @@ pub fn run(args: &[String]) -> i32 {
                     } else if k == "bad" && p >= 1 && p <= base.len() {
                         base[p - 1].ok = true;
                     }
-                    match concretise(&contents, &base, policy) {
+                    match concretise_salted(&contents, &base, policy, case_id) {
                         Some(bf) => run_typed(&c.mt, &full_message(&c.mt, &block4_text(&bf)), false).map(|o| o.accepted).unwrap_or(false),
                         None => false,
                     }
